@@ -14,7 +14,7 @@ echo "base commit: $(git rev-parse --short HEAD)"
 git apply "$SRC/patch.diff" || { echo "RESULT: patch does not apply"; exit 3; }
 cargo build --offline 2>&1 | tail -1
 DEMO="$SRC/demo.sh"
-sh "$DEMO" "$W/target/debug/garden" >"$W/demo_mut.out" 2>&1; rc_mut=$?
+bash "$DEMO" "$W/target/debug/garden" >"$W/demo_mut.out" 2>&1; rc_mut=$?
 echo "demo with mutation: rc=$rc_mut"
 cargo nextest run --offline --no-fail-fast --test-threads 8 >"$W/suite.out" 2>&1
 tail -6 "$W/suite.out"
@@ -27,7 +27,7 @@ for t in $FAILS; do
 done
 git checkout -- src
 cargo build --offline 2>&1 | tail -1
-sh "$DEMO" "$W/target/debug/garden" >"$W/demo_clean.out" 2>&1; rc_clean=$?
+bash "$DEMO" "$W/target/debug/garden" >"$W/demo_clean.out" 2>&1; rc_clean=$?
 echo "demo without mutation: rc=$rc_clean"
 if [ $rc_mut -ne 0 ] && [ $rc_clean -eq 0 ]; then echo "RESULT: demo OK"; else echo "RESULT: demo BAD"; fi
 } >"$LOG" 2>&1
